@@ -9,6 +9,8 @@ import (
 	"math"
 	"os"
 	"reflect"
+	"strings"
+	"time"
 )
 
 type replayFile struct {
@@ -115,6 +117,20 @@ func FieldUint64(v interface{}, field string) uint64 {
 	return f.Uint()
 }
 
+func FieldString(v interface{}, path string) string {
+	rv := reflect.ValueOf(v)
+	for _, f := range strings.Split(path, ".") {
+		if rv.Kind() == reflect.Ptr || rv.Kind() == reflect.Interface {
+			rv = rv.Elem()
+		}
+		rv = rv.FieldByName(f)
+		if !rv.IsValid() {
+			panic("verifrt: FieldString: no field " + f)
+		}
+	}
+	return rv.String()
+}
+
 func JSONValue(doc []byte) interface{} {
 	var v interface{}
 	if err := json.Unmarshal(doc, &v); err != nil {
@@ -151,6 +167,9 @@ func Assert(c bool, label string) {
 }
 
 func Symbolic() bool { return false }
+
+// Yield gives the other goroutines time to reach their next blocking point.
+func Yield() { time.Sleep(15 * time.Millisecond) }
 
 // HavocState: see verifrt_sym.go; leaves missing from the replay file keep their zero value.
 func HavocState(ptr interface{}, name string) {
